@@ -122,7 +122,9 @@ def run_circuit(case):
     i, t, f = wc.rand_stim(srng, ws.s_len, case['sims'])
     wc.assign(ws, i, t, f)
     if case['multi']: wc.overwrite_inputs(ws, srng)
-    reqs = [wc.model_request(ws, s) for s in range(case['sims'])]
+    # value sources of the rows resolved through the stems of the Lean SimOps model (= `MapIn.src`); without stripping: identity
+    stems = wc.model_stems(c, case['strip'])
+    reqs = [wc.model_request(ws, s, stems=stems) for s in range(case['sims'])]
     # initial/final of the input waveforms actually assigned (read back)
     TMIN = wc.consts()[0]
     ini = np.zeros((ws.s_len, case['sims']), dtype=np.uint8); fin = np.zeros_like(ini)
@@ -137,7 +139,7 @@ def run_circuit(case):
         ws.c_prop()
         if case.get('ctime') is None: ws.c_to_s()
         else: ws.c_to_s(time=np.float32(case['ctime']))
-    return c, ws, reqs, ini, fin
+    return c, ws, reqs, ini, fin, stems
 
 
 def eval_case(case):
@@ -147,7 +149,7 @@ def eval_case(case):
         except Exception as ex:
             return False, {'raised': f'{type(ex).__name__}: {ex}'[:200]}, None
         return gate_oracle(case, ents, term)
-    c, ws, reqs, ini, fin = run_circuit(case)
+    c, ws, reqs, ini, fin, _ = run_circuit(case)
     TMIN = wc.consts()[0]
     # ports: s[3], s[6] vs Lean spec evaluator on inits / finals
     lines = [f'net {circ.dump_net(c)}']
@@ -216,18 +218,33 @@ def corr_circuit(ck, n, thorough=False):
     for it in range(n):
         cs = circuit_case(ck.rng, thorough)
         try:
-            c, ws, reqs, ini, fin = run_circuit(cs)
+            c, ws, reqs, ini, fin, stems = run_circuit(cs)
             d = circ.describe(c)
-            if not cs['reuse']:
-                out = common.run_driver(reqs)
-                for s, m in enumerate(out):
+            out = common.run_driver(reqs)
+            n_ppo = 0
+            for s, m in enumerate(out):
+                ms = m.split(' ; ')[0].split(' ')
+                if not cs['reuse']:      # every written signal has its own region: compare them all
                     real = ' '.join(wc.real_signals(ws, s))
                     if real != m.split(' ; ')[0]:
-                        rs, ms = real.split(' '), m.split(' ; ')[0].split(' ')
+                        rs = real.split(' ')
                         k = next((i for i, (a, b) in enumerate(zip(rs, ms)) if a != b), -1)
                         ck.broken_tie('WaveSim vs Lean simWave', f'signal {k}: real {rs[k] if k >= 0 else "?"} != model {ms[k] if k >= 0 else "?"}',
                                       inp={k2: v for k2, v in cs.items()})
                         break
+                # memory level (C03.wave_memory_sound), ALSO with c_reuse: the region of every output slot, addressed through
+                # c_locs/c_caps of the SLOT index and read as `Wave.rdWave` reads it, holds the model's signal-level waveform of
+                # the captured signal (data line resolved through the stems of the Lean SimOps model)
+                bad = next(((j, sig, tok) for j, sig, tok in wc.ppo_memory(c, ws, s, stems)
+                            if sig >= len(ms) or tok != ms[sig]), None)
+                n_ppo += len(wc.ppo_memory(c, ws, s, stems))
+                if bad is not None:
+                    j, sig, tok = bad
+                    ck.broken_tie('WaveSim memory at an output slot vs Lean simWave of the captured signal',
+                                  f'lane {s} slot {j} captures signal {sig}: memory reads {tok} != model {ms[sig] if sig < len(ms) else "?"}',
+                                  inp={k2: v for k2, v in cs.items()})
+                    break
+            ck.hist['ppo-memory-regions-compared'] += n_ppo
             ok, obs, exp = eval_case(cs)
         except wc.OffGrid:
             ck.hist['off-grid-discarded'] += 1
